@@ -32,6 +32,9 @@ MS = [16384, 46, 80]
 FIRST_ELEMENT = b'\x08\x00\x05\x00\x0a\x00\x00\x00'       # (0008,0005) implicit VR, length 10
 
 
+# legal statuses an application may answer that the library has no table entry for (PS3.7 Annex C warning 0001H, a Bxxx
+# and an Axxx outside the registered ones, the top of the range): the sender must get exactly what the handler returned
+STATI_WIDE = [0x0000, 0xB000, 0xA700, 0xC123, 0x0001, 0xB00A, 0xA800, 0xFFFF]
 STATI = [0x0000, 0xB000, 0xA700, 0xC123]      # handler outcomes: success, warning, two failures (the sender classifies
                                               # the status through a dict: a symbolic code would only be enumerated)
 
@@ -326,15 +329,15 @@ def sample_dataset():
 
 @cond(bounds='store from *memory* (a Dataset with odd-length values and a nested sequence): negotiated transfer syntax '
              'symbolic over implicit LE / explicit LE / explicit BE, maximum PDU lengths of both sides symbolic from '
-             '{16384, 46, 80}, message id symbolic, handler outcome symbolic (4 codes or EventHandlingError); the handler '
+             '{16384, 46, 80}, message id symbolic, handler outcome symbolic (4 codes - with the first pair of maxima 8 codes, incl. legal ones the library has no table entry for - or EventHandlingError); the handler '
              'leaves the file it is handed open or closes it itself once it has read it (symbolic)',
-      family={'tsi': [0, 1, 2]}, timeout=300)
+      family={'tsi': [0, 1, 2]}, timeout=700)
 def store_dataset_end_to_end(pair: int, mid: int, sti: int, fail: bool, closes: bool) -> bool:
     """
-    pre: 0 <= pair < len(PAIRS()) and 0 <= mid <= 65535 and 0 <= sti < len(STATI)
+    pre: 0 <= pair < len(PAIRS()) and 0 <= mid <= 65535 and 0 <= sti < len(STATI_WIDE) and (sti < len(STATI) or pair == 0)
     post: _
     """
-    st = STATI[pick(sti, 0, len(STATI) - 1)]
+    st = STATI_WIDE[pick(sti, 0, len(STATI_WIDE) - 1)]
     mu, mp = PAIRS()[pick(pair, 0, len(PAIRS()) - 1)]
     tsi = fam('tsi')
     ts = pydicom.uid.UID(TS_LIST[tsi])
